@@ -664,3 +664,85 @@ Proof.
   apply feasible_nth; [apply pava_feasible_list; exact H| |rewrite L; exact Hi].
   destruct H as [_ [Lg _]]. congruence.
 Qed.
+
+(* ---------- 6. the KKT system read at an index; an item with room stays -- *)
+
+(* suffix sum of w (x - d) from index k on *)
+Definition Rk (k : nat) (d w x : list Q) : Q := Rs (skipn k d) (skipn k w) (skipn k x).
+
+Lemma kkt_at : forall x d w g k,
+  length d = length x -> length w = length x -> S (length g) = length x ->
+  kkt d w g x -> (S k < length x)%nat ->
+  qnth k g <= qnth (S k) x - qnth k x /\ 0 <= Rk (S k) d w x /\
+  (Rk (S k) d w x == 0 \/ qnth (S k) x - qnth k x == qnth k g).
+Proof.
+  induction x as [|xi x IH]; intros d w g k Ld Lw Lg K Hk; [cbn in Hk; lia|].
+  destruct d as [|di d]; [discriminate|]. destruct w as [|wi w]; [discriminate|].
+  destruct x as [|xj x]; [cbn in Hk; lia|]. destruct g as [|gi g]; [discriminate|].
+  cbn [length] in Ld, Lw, Lg, Hk. injection Ld as Ld. injection Lw as Lw. injection Lg as Lg.
+  cbn [kkt] in K. destruct K as [K1 [K2 [K3 K4]]].
+  destruct k as [|k].
+  - unfold Rk, qnth. cbn [skipn nth]. tauto.
+  - unfold Rk, qnth in *. cbn [skipn nth].
+    apply (IH d w g k); cbn [length]; try lia; try congruence.
+Qed.
+
+Lemma Rk_step : forall k d w x, length d = length x -> length w = length x -> (k < length x)%nat ->
+  Rk k d w x == qnth k w * (qnth k x - qnth k d) + Rk (S k) d w x.
+Proof.
+  induction k as [|k IH]; intros d w x Ld Lw Hk;
+    destruct x as [|xi x]; try (cbn in Hk; lia);
+    (destruct d as [|di d]; [discriminate|]); (destruct w as [|wi w]; [discriminate|]).
+  - unfold Rk, qnth. cbn [skipn nth Rs]. reflexivity.
+  - cbn [length] in Ld, Lw, Hk. injection Ld as Ld. injection Lw as Lw.
+    unfold Rk, qnth in *. cbn [skipn nth]. apply IH; try assumption. lia.
+Qed.
+
+Lemma Rk_end d w x : length d = length x -> Rk (length x) d w x == 0.
+Proof. intro L. unfold Rk. rewrite <- L at 1. rewrite skipn_all. reflexivity. Qed.
+
+Lemma all_pos_nth w k : all_pos w -> (k < length w)%nat -> 0 < qnth k w.
+Proof.
+  intros P H. unfold all_pos in P. rewrite Forall_forall in P. apply P. unfold qnth. apply nth_In. exact H.
+Qed.
+
+(* An item whose neighbours' solved positions leave the required gaps around
+   its desired position sits exactly there. *)
+Theorem pava_unmoved_item d w g k : chain_ok d w g -> (k < length d)%nat ->
+  let x := pava d w g in
+  match k with O => True | S k' => qnth k' x + qnth k' g <= qnth k d end ->
+  (S k = length d \/ qnth k d <= qnth (S k) x - qnth k g) ->
+  qnth k x == qnth k d.
+Proof.
+  intros H Hk x HL HR. destruct (pava_kkt d w g H) as [K [R L]]. fold x in K, R, L.
+  destruct H as [Lw [Lg P]].
+  assert (Ld : length d = length x) by congruence.
+  assert (Lw' : length w = length x) by congruence.
+  assert (Lg' : S (length g) = length x) by congruence.
+  assert (Hk' : (k < length x)%nat) by congruence.
+  pose proof (Rk_step k d w x Ld Lw' Hk') as ST.
+  pose proof (all_pos_nth w k P ltac:(congruence)) as Wk.
+  (* Rk k >= 0, and == 0 or the left constraint is tight *)
+  assert (A : 0 <= Rk k d w x /\ (Rk k d w x == 0 \/
+             match k with O => False | S k' => qnth k x - qnth k' x == qnth k' g end)).
+  { destruct k as [|k']; [split; [|left]; unfold Rk; cbn [skipn]; rewrite R; lra|].
+    destruct (kkt_at x d w g k' Ld Lw' Lg' K Hk') as [_ [A1 A2]]. tauto. }
+  assert (B : 0 <= Rk (S k) d w x /\ (Rk (S k) d w x == 0 \/
+             ((S k < length x)%nat /\ qnth (S k) x - qnth k x == qnth k g))).
+  { destruct (Nat.eq_dec (S k) (length x)) as [E|E].
+    - rewrite E. rewrite (Rk_end d w x Ld). split; [lra|left; reflexivity].
+    - assert (Hs : (S k < length x)%nat) by lia.
+      destruct (kkt_at x d w g k Ld Lw' Lg' K Hs) as [_ [B1 B2]]. split; [exact B1|].
+      destruct B2 as [B2|B2]; [left; exact B2|right; split; assumption]. }
+  destruct A as [A1 A2]. destruct B as [B1 B2].
+  set (c := qnth k x - qnth k d) in *.
+  destruct (Qlt_le_dec 0 c) as [Cp|Cn].
+  - (* pushed right: the left constraint would be tight *)
+    exfalso. assert (0 < Rk k d w x) by nra.
+    destruct A2 as [A2|A2]; [lra|]. destruct k as [|k']; [exact A2|]. unfold c in Cp. lra.
+  - destruct (Qlt_le_dec c 0) as [Cq|Cz]; [|unfold c in *; lra].
+    (* pushed left: the right constraint would be tight *)
+    exfalso. assert (0 < Rk (S k) d w x) by nra.
+    destruct B2 as [B2|[Hs B2]]; [lra|].
+    destruct HR as [HR|HR]; [lia|]. unfold c in Cq. lra.
+Qed.
